@@ -156,12 +156,14 @@ window positions are `arange(q - wl, q) + 1` filtered `≥ 0`; an empty batch le
 def inSampleGo (st : Strategy) (sp wl : Nat) (y : List Val) (origin : Int) :
     List Int → Int → Except Err (List (Int × Val))
   | [], _ => .ok []
-  | q :: qs, cut => do
+  | q :: qs, cut =>
     let cut' := if q < 0 then cut else origin + q              -- y_new.index[-1] when y_new non-empty
-    let w := lastWindow y origin wl cut'
-    let v ← predictLastWindow st sp wl w [1]
-    let rest ← inSampleGo st sp wl y origin qs cut'
-    pure ((cut' + 1, v.headD none) :: rest)
+    match predictLastWindow st sp wl (lastWindow y origin wl cut') [1] with
+    | .error e => .error e
+    | .ok v =>
+      match inSampleGo st sp wl y origin qs cut' with
+      | .error e => .error e
+      | .ok rest => .ok ((cut' + 1, v.headD none) :: rest)
 
 /-- `steps` = relative in-sample steps (≤ 0) -/
 def predictInSample (st : Strategy) (sp wl : Nat) (y : List Val) (origin : Int) (steps : List Int) :
